@@ -1,6 +1,6 @@
 CONSTANTS
-  N = 5
-  Sizes = {1, 3}
+  N = 6
+  Sizes = {1, 2, 4}
   PackLimits <- MCLimits
   PackModes <- MCModes
 INIT MInit
